@@ -276,19 +276,29 @@ Definition lk_pk (d : string) : packet :=
 Definition lk_rx_ok : str -> bool := fun _ => true.
 Definition lk_rx : str -> str -> bool := fun _ _ => false.
 
-Ltac lk_side :=
+Lemma with_build : forall rx_ok sets (P : C11_Model.matcher ptrie -> Prop),
+  match c11_build rx_ok sets with Some m => P m | None => False end ->
+  exists m, c11_build rx_ok sets = Some m /\ P m.
+Proof. intros rx_ok sets P H. destruct (c11_build rx_ok sets) as [m|]; [now exists m | destruct H]. Qed.
+
+Ltac lk_size :=
   match goal with
   | |- sets_size_ok ?s =>
       let v := eval vm_compute in s in change s with v;
       let j := fresh "j" in
       intro j; unfold size_ok, at_idx; cbn [flat_map ps_idx fst snd];
       match goal with |- context [N.eqb ?a ?b] => destruct (N.eqb a b) end; vm_compute; reflexivity
+  end.
+Ltac lk_rxagree :=
+  match goal with
   | |- c01_regex_oracles_agree ?p _ _ =>
+      let i := fresh "i" in let key := fresh "key" in let vals := fresh "vals" in let s := fresh "s" in
+      let Hin := fresh "Hin" in let Hk := fresh "Hk" in
       intros i key vals s Hin Hk; exfalso; revert Hin Hk;
       let v := eval vm_compute in (c01_domsets p) in change (c01_domsets p) with v;
       intros [Hin|[]] Hk; inversion Hin; subst; vm_compute in Hk; discriminate
-  | |- _ => vm_compute; reflexivity
   end.
+Ltac lk_c := vm_compute; reflexivity.
 
 (* all hypotheses hold for suffix:b.c with the domains a.b.c (rule), ab.c (fallback) and "" (fallback) *)
 Example Link_C01_C11_nonvacuous :
@@ -301,10 +311,9 @@ Example Link_C01_C11_nonvacuous :
     map (fun d => model_route p (c01_dm lk_rx m) (lk_pk d)) ["a.b.c"; "ab.c"; ""]%string
     = [Ok (2, 0, false); Ok (0, 0, false); Ok (0, 0, false)].
 Proof.
-  cbv zeta. repeat split; try lk_side.
-  - intros d [<-|[<-|[<-|[]]]]; repeat split; lk_side.
-  - destruct (c11_build lk_rx_ok (c01_sets (lk_prog 2 DSuffix "b.c"))) as [m|] eqn:E; [|vm_compute in E; discriminate].
-    exists m. split; [reflexivity|]. revert E. vm_compute. intro E. inversion E; subst. reflexivity.
+  cbv zeta. split; [lk_c|]. split; [lk_c|]. split; [lk_size|]. split; [lk_c|]. split; [lk_c|]. split.
+  - intros d [<-|[<-|[<-|[]]]]; (split; [lk_c | split; [lk_c | lk_rxagree]]).
+  - apply with_build. lk_c.
 Qed.
 
 (* MISMATCH between the two specs (finding).  C01_Spec.domain_holds compares the packet's domain with the
@@ -325,15 +334,9 @@ Theorem Link_C01_C11_normalisation_mismatch :
     exists m, c11_build lk_rx_ok (c01_sets p) = Some m /\
       model_route p (c01_dm lk_rx m) (lk_pk d) = Ok (2, 0, false).
 Proof.
-  cbv zeta. repeat split; try lk_side.
-  intros d Hd.
-  assert (Hm : exists m, c11_build lk_rx_ok (c01_sets (lk_prog 1 DFull "a.b")) = Some m /\
-             map (fun d => model_route (lk_prog 1 DFull "a.b") (c01_dm lk_rx m) (lk_pk d)) ["A.b"; "a.b."]%string
-             = [Ok (2, 0, false); Ok (2, 0, false)]).
-  { destruct (c11_build lk_rx_ok (c01_sets (lk_prog 1 DFull "a.b"))) as [m|] eqn:E; [|vm_compute in E; discriminate].
-    exists m. split; [reflexivity|]. revert E. vm_compute. intro E. inversion E; subst. reflexivity. }
-  destruct Hm as [m [Hb Hm]]. cbn [map] in Hm. inversion Hm as [[H1 H2]].
-  destruct Hd as [<-|[<-|[]]]; (repeat split; try lk_side; [intro H; vm_compute in H; discriminate | exists m; split; assumption]).
+  cbv zeta. split; [lk_c|]. split; [lk_c|]. split; [lk_size|]. split; [lk_c|]. split; [lk_c|].
+  intros d [<-|[<-|[]]];
+    (split; [lk_c | split; [lk_rxagree | split; [intro H; vm_compute in H; discriminate | split; [lk_c | apply with_build; lk_c]]]]).
 Qed.
 Print Assumptions Link_C01_C11_normalisation_mismatch.
 
@@ -348,9 +351,7 @@ Theorem Link_C01_C11_alphabet_needed :
   exists m, c11_build lk_rx_ok (c01_sets p) = Some m /\
     model_route p (c01_dm lk_rx m) (lk_pk d) = Ok (2, 0, false).
 Proof.
-  cbv zeta. repeat split; try lk_side.
-  destruct (c11_build lk_rx_ok (c01_sets (lk_prog 1 DFull "a.b"))) as [m|] eqn:E; [|vm_compute in E; discriminate].
-  exists m. split; [reflexivity|]. revert E. vm_compute. intro E. inversion E; subst. reflexivity.
+  cbv zeta. split; [lk_c|]. split; [lk_c|]. split; [lk_c|]. apply with_build. lk_c.
 Qed.
 Print Assumptions Link_C01_C11_alphabet_needed.
 
